@@ -5,8 +5,7 @@ import vlib
 HARNESSES = ("wire_h",)
 THEOREMS = ["C16_interface", "C16_error_name", "C16_member", "C16_path", "C16_bus_name_wellknown",
             "C16_bus_name_unique_partial", "C16_bus_name_unique_exact", "C16_bus_name_refuted", "C16_bus_namespace",
-            "C16_utf8", "C16_signature_refuted"]
-# not yet a theorem: automaton = grammar for signatures within the nesting limits (exhaustive small-scope correspondence instead)
+            "C16_utf8", "C16_signature", "C16_signature_accepts_only_grammar", "C16_signature_accepts_all_spec", "C16_signature_print_parse", "C16_signature_refuted"]
 GRAMMARS = ["iface", "errname", "member", "path", "busname"]
 
 NAME_ALPHA = [0x61, 0x5a, 0x30, 0x5f, 0x2d, 0x2e, 0x2f, 0x3a, 0x00, 0xe9]
